@@ -207,7 +207,7 @@ func c10Specs() []*edt.Spec {
 						if i == 0 {
 							want = "1"
 						}
-						if m := finalIs(p, ab, fmt.Sprintf("$p[%d]", i), want); m != "" {
+						if m := finalElemIs(p, ab, "$p", i, want); m != "" {
 							return "on failure the compressed point must be the identity encoding: " + m
 						}
 					}
